@@ -258,17 +258,32 @@ Proof.
 Qed.
 
 (* and the least candidate is one of them *)
+Lemma cand_none : forall w h x y, 0 <= x -> 0 <= y -> hexnorm (x + 0 * w, y + 0 * h) = Z.max x y.
+Proof. intros. unfold hexnorm; cbn [fst snd]. lia. Qed.
+Lemma cand_x : forall w h x y, x < w -> 0 <= y -> hexnorm (x + (-1) * w, y + 0 * h) = w - x + y.
+Proof. intros. unfold hexnorm; cbn [fst snd]. lia. Qed.
+Lemma cand_y : forall w h x y, 0 <= x -> y < h -> hexnorm (x + 0 * w, y + (-1) * h) = x + h - y.
+Proof. intros. unfold hexnorm; cbn [fst snd]. lia. Qed.
+Lemma cand_xy : forall w h x y, x < w -> y < h ->
+                              hexnorm (x + (-1) * w, y + (-1) * h) = Z.max (w - x) (h - y).
+Proof. intros. unfold hexnorm; cbn [fst snd]. lia. Qed.
+
+Lemma min4_cases :
+  forall a b c d, let m := Z.min (Z.min (Z.min a b) c) d in m = a \/ m = b \/ m = c \/ m = d.
+Proof. intros. subst m. lia. Qed.
+
 Lemma tlen_achieved :
   forall w h x y, 0 <= x < w -> 0 <= y < h ->
-                  exists i j, tlen w h x y = hexnorm (x + i * w, y + j * h).
+                  exists i j, (i = 0 \/ i = -1) /\ (j = 0 \/ j = -1) /\
+                              tlen w h x y = hexnorm (x + i * w, y + j * h).
 Proof.
-  intros w h x y Hx Hy.
-  assert (C : tlen w h x y = hexnorm (x + 0 * w, y + 0 * h) \/
-              tlen w h x y = hexnorm (x + (-1) * w, y + 0 * h) \/
-              tlen w h x y = hexnorm (x + 0 * w, y + (-1) * h) \/
-              tlen w h x y = hexnorm (x + (-1) * w, y + (-1) * h))
-    by (unfold tlen, hexnorm; cbn [fst snd]; lia).
-  destruct C as [C|[C|[C|C]]]; eauto.
+  intros w h x y Hx Hy. unfold tlen.
+  destruct (min4_cases (Z.max x y) (w - x + y) (x + h - y) (Z.max (w - x) (h - y))) as [C|[C|[C|C]]];
+    rewrite C.
+  - exists 0, 0. rewrite cand_none by lia. auto.
+  - exists (-1), 0. rewrite cand_x by lia. auto.
+  - exists 0, (-1). rewrite cand_y by lia. auto.
+  - exists (-1), (-1). rewrite cand_xy by lia. auto.
 Qed.
 
 Lemma mod_eq_translate :
@@ -290,7 +305,7 @@ Proof.
   assert (Hx : 0 <= x < w) by (apply Z.mod_pos_bound; lia).
   assert (Hy : 0 <= y < h) by (apply Z.mod_pos_bound; lia).
   split.
-  - destruct (tlen_achieved w h x y Hx Hy) as (i & j & Hij).
+  - destruct (tlen_achieved w h x y Hx Hy) as (i & j & _ & _ & Hij).
     exists (vector_walk (minimise_xyz (x + i * w, y + j * h, 0))).
     rewrite torus_walk_wrap, vector_walk_end, vector_walk_len, minimise_hops, minimise_to2d.
     split.
@@ -306,4 +321,404 @@ Proof.
     rewrite (mod_eq_translate w ax bx ex Hw H1), (mod_eq_translate h ay by_ ey Hh H2) in W.
     pose proof (tlen_lower w h x y ((ex - ax) / w) ((ey - ay) / h) Hx Hy) as L.
     fold x y in W. lia.
+Qed.
+
+(* ================================================================================================
+   shortest_torus_path: every outcome of the random draws *)
+Lemma lex_ltb_true : forall a b, lex_ltb a b = true -> fst a <= fst b.
+Proof.
+  intros a b H. unfold lex_ltb in H. apply orb_true_iff in H. destruct H as [H|H].
+  - apply Z.ltb_lt in H. lia.
+  - apply andb_true_iff in H. destruct H as [H _]. apply Z.eqb_eq in H. lia.
+Qed.
+
+Lemma lex_ltb_false : forall a b, lex_ltb a b = false -> fst b <= fst a.
+Proof.
+  intros a b H. unfold lex_ltb in H. apply orb_false_iff in H. destruct H as [H _].
+  apply Z.ltb_ge in H. exact H.
+Qed.
+
+(* min(..., key=(distance, draw)) returns an element of the list whose distance is least *)
+Lemma argmin_first_lex :
+  forall (l : list ((Z * Z) * vec3)) best,
+    In (argmin_first lex_ltb best l) (best :: l) /\
+    forall e, In e (best :: l) -> fst (fst (argmin_first lex_ltb best l)) <= fst (fst e).
+Proof.
+  induction l as [|a l IH]; intros best.
+  - cbn. split; [auto|]. intros e [<-|[]]. lia.
+  - cbn [argmin_first]. destruct (lex_ltb (fst a) (fst best)) eqn:E.
+    + destruct (IH a) as [I M]. split.
+      * destruct I as [I|I]; [right; left; exact I | right; right; exact I].
+      * intros e [<-|[<-|He]].
+        -- apply lex_ltb_true in E. specialize (M a (or_introl eq_refl)). lia.
+        -- apply M. now left.
+        -- apply M. now right.
+    + destruct (IH best) as [I M]. split.
+      * destruct I as [I|I]; [left; exact I | right; right; exact I].
+      * intros e [<-|[<-|He]].
+        -- apply M. now left.
+        -- apply lex_ltb_false in E. specialize (M best (or_introl eq_refl)). lia.
+        -- apply M. now right.
+Qed.
+
+(* the chosen approach is a lattice translate of the reduced displacement of least norm *)
+Lemma torus_choice_spec :
+  forall k0 k1 k2 k3 s d w h, 1 <= w -> 1 <= h ->
+    let x := fst (torus_delta s d w h) in
+    let y := snd (torus_delta s d w h) in
+    exists i j, torus_choice k0 k1 k2 k3 s d w h = (x + i * w, y + j * h, 0) /\
+                hexnorm (x + i * w, y + j * h) = tlen w h x y.
+Proof.
+  intros k0 k1 k2 k3 s d w h Hw Hh x y.
+  assert (Hx : 0 <= x < w).
+  { subst x. rewrite torus_delta_to2d. cbn [fst]. apply Z.mod_pos_bound. lia. }
+  assert (Hy : 0 <= y < h).
+  { subst y. rewrite torus_delta_to2d. cbn [snd]. apply Z.mod_pos_bound. lia. }
+  unfold torus_choice. destruct (torus_delta s d w h) as [dx dy] eqn:Ed. cbn [fst snd] in x, y.
+  subst x y.
+  unfold torus_approaches, keyed_lex, choose. cbn [combine map].
+  match goal with |- context [argmin_first lex_ltb ?b ?l] =>
+    destruct (argmin_first_lex l b) as [I M]; set (r := argmin_first lex_ltb b l) in *
+  end.
+  pose proof (M _ (or_introl eq_refl)) as M0.
+  pose proof (M _ (or_intror (or_introl eq_refl))) as M1.
+  pose proof (M _ (or_intror (or_intror (or_introl eq_refl)))) as M2.
+  pose proof (M _ (or_intror (or_intror (or_intror (or_introl eq_refl))))) as M3.
+  cbn [fst snd] in M0, M1, M2, M3. clear M.
+  unfold tlen.
+  destruct I as [I|[I|[I|[I|[]]]]]; rewrite <- I in *; cbn [fst snd] in *.
+  - exists 0, 0. split; [f_equal; f_equal; lia|]. rewrite cand_none by lia. lia.
+  - exists (-1), 0. split; [f_equal; f_equal; lia|]. rewrite cand_x by lia. lia.
+  - exists 0, (-1). split; [f_equal; f_equal; lia|]. rewrite cand_y by lia. lia.
+  - exists (-1), (-1). split; [f_equal; f_equal; lia|]. rewrite cand_xy by lia. lia.
+Qed.
+
+Lemma max_spirals_nonneg :
+  forall c size, 1 <= size -> 0 <= c -> 0 <= max_spirals c size /\ max_spirals c size * size <= c.
+Proof.
+  intros c size Hs Hc. unfold max_spirals. destruct (Z.ltb_spec c 0); [lia|].
+  split; [apply Z.div_pos; lia|]. rewrite Z.mul_comm. apply Z.mul_div_le. lia.
+Qed.
+
+Lemma max_spirals_neg :
+  forall c size, 1 <= size -> c < 0 -> max_spirals c size <= 0 /\ c <= max_spirals c size * size.
+Proof.
+  intros c size Hs Hc. unfold max_spirals. destruct (Z.ltb_spec c 0); [|lia].
+  pose proof (Z.div_mod (c + size - 1) size ltac:(lia)) as E.
+  pose proof (Z.mod_pos_bound (c + size - 1) size ltac:(lia)) as B.
+  split; [|nia].
+  assert ((c + size - 1) / size < 1) by (apply Z.div_lt_upper_bound; lia). lia.
+Qed.
+
+(* the amount d subtracted by a spiral has the sign of the component c and does not exceed it *)
+Lemma spiral_amount :
+  forall rint c size, randint_contract rint -> 1 <= size ->
+    let ms := max_spirals c size in
+    let r := rint (Z.min 0 ms) (Z.max 0 ms) in
+    (0 <= c -> 0 <= r * size <= c) /\ (c < 0 -> c <= r * size <= 0).
+Proof.
+  intros rint c size Hr Hs ms r.
+  pose proof (Hr (Z.min 0 ms) (Z.max 0 ms) ltac:(lia)) as B. fold r in B.
+  split; intros Hc.
+  - destruct (max_spirals_nonneg c size Hs Hc) as [A1 A2]. fold ms in A1, A2. nia.
+  - destruct (max_spirals_neg c size Hs Hc) as [A1 A2]. fold ms in A1, A2. nia.
+Qed.
+
+Lemma spiral_spec :
+  forall rint v w h, randint_contract rint -> 1 <= w -> 1 <= h ->
+    hops v = hexnorm (to2d v) ->
+    hops (spiral rint v w h) = hops v /\
+    exists p q, to2d (spiral rint v w h) = (fst (to2d v) + p * w, snd (to2d v) + q * h).
+Proof.
+  intros rint [[x y] z] w h Hr Hw Hh Hmin. unfold spiral.
+  unfold hops, hexnorm, to2d in Hmin; cbn [fst snd] in Hmin.
+  destruct (Z.abs x >=? h) eqn:E1.
+  - destruct (spiral_amount rint x h Hr Hh) as [P N].
+    set (r := rint (Z.min 0 (max_spirals x h)) (Z.max 0 (max_spirals x h))) in *.
+    split.
+    + generalize dependent (r * h). intros dd P N.
+      unfold hops. rewrite Z.geb_leb in E1. apply Z.leb_le in E1. lia.
+    + exists 0, r. unfold to2d; cbn [fst snd]. f_equal; lia.
+  - destruct (Z.abs y >=? w) eqn:E2.
+    + destruct (spiral_amount rint y w Hr Hw) as [P N].
+      set (r := rint (Z.min 0 (max_spirals y w)) (Z.max 0 (max_spirals y w))) in *.
+      split.
+      * generalize dependent (r * w). intros dd P N.
+        unfold hops. rewrite Z.geb_leb in E2. apply Z.leb_le in E2. lia.
+      * exists r, 0. unfold to2d; cbn [fst snd]. f_equal; lia.
+    + split; [reflexivity|]. exists 0, 0. unfold to2d; cbn [fst snd]. f_equal; lia.
+Qed.
+
+Lemma torus_path_vector :
+  forall k0 k1 k2 k3 rint s d w h, 1 <= w -> 1 <= h -> randint_contract rint ->
+    exists v, shortest_torus_path k0 k1 k2 k3 rint s d w h = Ok v /\
+              hops v = shortest_torus_path_length s d w h /\
+              wrap w h (chip_add (to2d s) (to2d v)) = wrap w h (to2d d) /\
+              torus_walk w h (wrap w h (to2d s)) (vector_walk v) = wrap w h (to2d d) /\
+              len (vector_walk v) = shortest_torus_path_length s d w h.
+Proof.
+  intros k0 k1 k2 k3 rint s d w h Hw Hh Hr.
+  unfold shortest_torus_path.
+  destruct (Z.eqb_spec w 0); [lia|]. destruct (Z.eqb_spec h 0); [lia|]. cbn [orb].
+  eexists. split; [reflexivity|].
+  destruct (torus_choice_spec k0 k1 k2 k3 s d w h Hw Hh) as (i & j & Hc & Hn).
+  set (c := torus_choice k0 k1 k2 k3 s d w h) in *.
+  assert (Hm : hops (minimise_xyz c) = hexnorm (to2d (minimise_xyz c)))
+    by (rewrite minimise_hops, minimise_to2d; reflexivity).
+  destruct (spiral_spec rint (minimise_xyz c) w h Hr Hw Hh Hm) as (Hh1 & p & q & Hh2).
+  set (v := spiral rint (minimise_xyz c) w h) in *.
+  assert (A : hops v = shortest_torus_path_length s d w h).
+  { rewrite Hh1, minimise_hops, torus_length_tlen, <- Hn, Hc. unfold to2d. now rewrite !Z.sub_0_r. }
+  assert (B : wrap w h (chip_add (to2d s) (to2d v)) = wrap w h (to2d d)).
+  { rewrite Hh2, minimise_to2d, Hc, torus_delta_to2d.
+    destruct (to2d s) as [ax ay], (to2d d) as [bx by_].
+    unfold wrap, chip_add, to2d; cbn [fst snd]. rewrite !Z.sub_0_r.
+    rewrite !Z.add_assoc, !Z_mod_plus_full, !Zplus_mod_idemp_r. f_equal; f_equal; lia. }
+  repeat split; auto.
+  - rewrite torus_walk_wrap, vector_walk_end. exact B.
+  - rewrite vector_walk_len. exact A.
+Qed.
+
+(* the error branch: a zero width or height is the only way not to get a vector *)
+Lemma torus_path_error :
+  forall k0 k1 k2 k3 rint s d w h,
+    shortest_torus_path k0 k1 k2 k3 rint s d w h = OtherError <-> (w = 0 \/ h = 0).
+Proof.
+  intros. unfold shortest_torus_path.
+  destruct (Z.eqb_spec w 0); destruct (Z.eqb_spec h 0); cbn [orb]; split; intros H;
+    try discriminate; try reflexivity; lia.
+Qed.
+
+(* the code as found in the snapshot added the draw to the distance in floating point: a draw of
+   1 - 2^-53 rounds 1 + draw up to 2.0, which ties with a two-hop approach listed earlier *)
+Lemma torus_path_float_key_refuted :
+  exists k0 k1 k2 k3 rint s d w h v,
+    0 <= k0 < two53 /\ 0 <= k1 < two53 /\ 0 <= k2 < two53 /\ 0 <= k3 < two53 /\
+    randint_contract rint /\ 1 <= w /\ 1 <= h /\
+    shortest_torus_path_orig k0 k1 k2 k3 rint s d w h = Ok v /\
+    hops v <> shortest_torus_path_length s d w h.
+Proof.
+  exists 0, (two53 - 1), 0, 0, (fun lo _ => lo), (0, 0, 0), (2, 0, 0), 3, 3, (2, 0, 0).
+  repeat split; first [lia | vm_compute; congruence].
+Qed.
+
+(* ================================================================================================
+   longest_dimension_first *)
+(* the float key: a zero magnitude sorts strictly after every non-zero magnitude, whatever is drawn *)
+Lemma fadd53_zero : forall k, fadd53 0 k = k.
+Proof. intros. unfold fadd53. cbn. lia. Qed.
+
+Lemma fadd53_pos : forall d k, 1 <= d -> 0 <= k -> two53 <= fadd53 d k.
+Proof.
+  intros d k Hd Hk. unfold fadd53. destruct (Z.leb_spec d 0); [lia|].
+  assert (T : two53 = 2 * 4503599627370496) by reflexivity.
+  pose proof (Z.log2_spec d ltac:(lia)) as [L _].
+  pose proof (Z.log2_nonneg d) as Ln.
+  rewrite Z.pow_add_r, Z.pow_1_r by lia.
+  set (E := 2 ^ Z.log2 d) in *.
+  assert (HE : 1 <= E) by (subst E; pose proof (Z.pow_pos_nonneg 2 (Z.log2 d) ltac:(lia) Ln); lia).
+  set (u := E * 2). set (v := d * two53 + k).
+  assert (Hq : 4503599627370496 <= v / u).
+  { apply Z.div_le_lower_bound; [lia|]. subst u v. rewrite T. nia. }
+  assert (Hqu : two53 <= v / u * u) by (rewrite T; nia).
+  destruct (2 * (v mod u) <? u); [exact Hqu|].
+  destruct (u <? 2 * (v mod u)); [nia|].
+  destruct (Z.even (v / u)); [exact Hqu | nia].
+Qed.
+
+Lemma ldf_key_facts :
+  forall m k, 0 <= k < two53 ->
+              (m = 0 -> fadd53 (Z.abs m) k < two53) /\ (m <> 0 -> two53 <= fadd53 (Z.abs m) k).
+Proof.
+  intros m k Hk. split; intros H.
+  - subst m. cbn [Z.abs]. rewrite fadd53_zero. lia.
+  - apply fadd53_pos; lia.
+Qed.
+
+Fixpoint zeros_last (ds : list (Z * Z)) : Prop :=
+  match ds with
+  | [] => True
+  | e :: t => (snd e = 0 -> Forall (fun e' => snd e' = 0) t) /\ zeros_last t
+  end.
+
+(* the order in which the dimensions are walked: one of the six permutations, zeros last *)
+Lemma ldf_order_cases :
+  forall k0 k1 k2 x y z, 0 <= k0 < two53 -> 0 <= k1 < two53 -> 0 <= k2 < two53 ->
+    let o := ldf_order k0 k1 k2 (x, y, z) in
+    zeros_last o /\
+    (o = [(0, x); (1, y); (2, z)] \/ o = [(0, x); (2, z); (1, y)] \/ o = [(1, y); (0, x); (2, z)] \/
+     o = [(1, y); (2, z); (0, x)] \/ o = [(2, z); (0, x); (1, y)] \/ o = [(2, z); (1, y); (0, x)]).
+Proof.
+  intros k0 k1 k2 x y z H0 H1 H2 o. subst o. unfold ldf_order, sort_desc.
+  destruct (ldf_key_facts x k0 H0) as [X0 X1].
+  destruct (ldf_key_facts y k1 H1) as [Y0 Y1].
+  destruct (ldf_key_facts z k2 H2) as [Z0 Z1].
+  generalize dependent (fadd53 (Z.abs x) k0). generalize dependent (fadd53 (Z.abs y) k1).
+  generalize dependent (fadd53 (Z.abs z) k2). intros kz Z0 Z1 ky Y0 Y1 kx X0 X1.
+  cbn [fold_right insert_desc fst snd].
+  destruct (Z.leb_spec kz ky) as [A|A]; cbn [insert_desc fst snd map];
+    destruct (Z.leb_spec ky kx) as [B|B]; cbn [insert_desc fst snd map];
+      try (destruct (Z.leb_spec kz kx) as [C|C]; cbn [insert_desc fst snd map]);
+      (split; [cbn [zeros_last snd]; repeat split; intros; repeat constructor; cbn [snd]; lia | tauto]).
+Qed.
+
+Lemma wrapo_ok : forall m x, size_ok m -> wrapo m x = Ok (wrap_opt m x).
+Proof.
+  intros [w|] x H; cbn in *; [|reflexivity]. destruct (Z.eqb_spec w 0); [lia|reflexivity].
+Qed.
+
+Lemma wrap_opt_add_l : forall m a b, wrap_opt m (wrap_opt m a + b) = wrap_opt m (a + b).
+Proof. intros [w|] a b; cbn; [apply Zplus_mod_idemp_l | reflexivity]. Qed.
+
+Lemma wrap_opt_congr_add :
+  forall m a b c, wrap_opt m a = wrap_opt m b -> wrap_opt m (a + c) = wrap_opt m (b + c).
+Proof. intros m a b c H. rewrite <- (wrap_opt_add_l m a c), H, wrap_opt_add_l. reflexivity. Qed.
+
+Lemma ldf_step_ok :
+  forall l width height p, size_ok width -> size_ok height ->
+    ldf_step (fst (link_vec l)) (snd (link_vec l)) width height p =
+    Ok (link_num l, wrap_opt2 width height (mesh_step p l)).
+Proof.
+  intros l width height p Hw Hh. unfold ldf_step. rewrite !wrapo_ok by assumption. cbn [bind].
+  unfold wrap_opt2, mesh_step; cbn [fst snd]. destruct l; reflexivity.
+Qed.
+
+Lemma last_cons_default : forall (l : list chip) q d, last (q :: l) d = last l q.
+Proof.
+  induction l as [|a l IH]; intros q d; [reflexivity|].
+  change (last (q :: a :: l) d) with (last (a :: l) d). rewrite (IH a d), (IH a q). reflexivity.
+Qed.
+
+Lemma walk_end_cons : forall p e out, walk_end p (e :: out) = walk_end (snd e) out.
+Proof. intros p e out. unfold walk_end. cbn [map]. apply last_cons_default. Qed.
+
+Lemma walk_end_app : forall o1 o2 p, walk_end p (o1 ++ o2) = walk_end (walk_end p o1) o2.
+Proof.
+  induction o1 as [|e o1 IH]; intros o2 p; [reflexivity|].
+  change ((e :: o1) ++ o2) with (e :: (o1 ++ o2)). rewrite !walk_end_cons. apply IH.
+Qed.
+
+Lemma labelled_walk_app :
+  forall width height o1 o2 p,
+    labelled_walk width height p o1 -> labelled_walk width height (walk_end p o1) o2 ->
+    labelled_walk width height p (o1 ++ o2).
+Proof.
+  intros width height. induction o1 as [|[n q] o1 IH]; intros o2 p H1 H2; [exact H2|].
+  cbn [app labelled_walk] in *. destruct H1 as [Hs H1]. split; [exact Hs|].
+  apply IH; [exact H1|]. rewrite walk_end_cons in H2. exact H2.
+Qed.
+
+Lemma ldf_steps_ok :
+  forall l width height, size_ok width -> size_ok height ->
+    forall n p, exists out,
+      ldf_steps n (fst (link_vec l)) (snd (link_vec l)) width height p = Ok (out, walk_end p out) /\
+      labelled_walk width height p out /\ length out = n /\
+      wrap_opt2 width height (walk_end p out) =
+      wrap_opt2 width height (fst p + Z.of_nat n * fst (link_vec l), snd p + Z.of_nat n * snd (link_vec l)).
+Proof.
+  intros l width height Hw Hh. induction n as [|n IH]; intros p.
+  - exists []. cbn [ldf_steps]. repeat split. unfold walk_end; cbn [map last].
+    destruct p as [x y]; cbn [fst snd]. unfold wrap_opt2; cbn [fst snd]. f_equal; f_equal; lia.
+  - cbn [ldf_steps]. rewrite ldf_step_ok by assumption. cbn [bind snd].
+    set (q := wrap_opt2 width height (mesh_step p l)).
+    destruct (IH q) as (out & E & W & L & D). rewrite E. cbn [bind fst snd].
+    exists ((link_num l, q) :: out). rewrite walk_end_cons. cbn [snd].
+    split; [reflexivity|]. split; [|split].
+    + cbn [labelled_walk]. split; [|exact W]. exists l. split; reflexivity.
+    + cbn [length]. now rewrite L.
+    + rewrite D. subst q. unfold wrap_opt2, mesh_step; cbn [fst snd].
+      rewrite !wrap_opt_add_l. f_equal; f_equal; lia.
+Qed.
+
+Fixpoint sum_disp (ds : list (Z * Z)) : chip :=
+  match ds with
+  | [] => (0, 0)
+  | e :: t => chip_add (snd e * fst (ldf_delta (fst e) 1), snd e * snd (ldf_delta (fst e) 1)) (sum_disp t)
+  end.
+
+Fixpoint sum_abs (ds : list (Z * Z)) : Z :=
+  match ds with
+  | [] => 0
+  | e :: t => Z.abs (snd e) + sum_abs t
+  end.
+
+Lemma all_zero_sums :
+  forall t, Forall (fun e' : Z * Z => snd e' = 0) t -> sum_disp t = (0, 0) /\ sum_abs t = 0.
+Proof.
+  induction t as [|e t IH]; intros H; [split; reflexivity|].
+  inversion H as [|? ? He Ht]; subst. destruct (IH Ht) as [A B].
+  cbn [sum_disp sum_abs]. rewrite A, B, He. unfold chip_add; cbn [fst snd]. split; [f_equal|]; lia.
+Qed.
+
+Lemma ldf_delta_link :
+  forall dim sign, sign = 1 \/ sign = -1 ->
+    exists l, ldf_delta dim sign = link_vec l /\
+              fst (link_vec l) = sign * fst (ldf_delta dim 1) /\
+              snd (link_vec l) = sign * snd (ldf_delta dim 1).
+Proof.
+  intros dim sign [-> | ->]; unfold ldf_delta;
+    destruct (dim =? 0); [| destruct (dim =? 1) | | destruct (dim =? 1)].
+  - exists East; repeat split.
+  - exists North; repeat split.
+  - exists SouthWest; repeat split.
+  - exists West; repeat split.
+  - exists South; repeat split.
+  - exists NorthEast; repeat split.
+Qed.
+
+Lemma ldf_dims_ok :
+  forall width height, size_ok width -> size_ok height ->
+    forall ds p, zeros_last ds ->
+      exists out, ldf_dims ds width height p = Ok out /\
+                  labelled_walk width height p out /\
+                  wrap_opt2 width height (walk_end p out) =
+                  wrap_opt2 width height (chip_add p (sum_disp ds)) /\
+                  Z.of_nat (length out) = sum_abs ds.
+Proof.
+  intros width height Hw Hh. induction ds as [|[dim mag] ds IH]; intros p Hz.
+  - exists []. cbn. repeat split. unfold walk_end, chip_add; cbn.
+    destruct p as [x y]; cbn. f_equal; f_equal; lia.
+  - cbn [ldf_dims]. cbn [zeros_last snd] in Hz. destruct Hz as [Hz0 Hz].
+    destruct (Z.eqb_spec mag 0) as [E0|N0].
+    + exists []. destruct (all_zero_sums ds (Hz0 E0)) as [A B].
+      cbn [sum_disp sum_abs fst snd length labelled_walk]. rewrite A, B, E0.
+      repeat split. unfold walk_end, chip_add; cbn.
+      destruct p as [x y]; cbn. f_equal; f_equal; lia.
+    + set (sign := if mag >? 0 then 1 else -1).
+      assert (Hs : sign = 1 \/ sign = -1) by (subst sign; destruct (mag >? 0); auto).
+      assert (Hm : Z.abs mag * sign = mag).
+      { subst sign. rewrite Z.gtb_ltb. destruct (Z.ltb_spec 0 mag); lia. }
+      destruct (ldf_delta_link dim sign Hs) as (l & El & F1 & F2). rewrite El.
+      destruct (ldf_steps_ok l width height Hw Hh (Z.to_nat (Z.abs mag)) p) as (o1 & E1 & W1 & L1 & D1).
+      destruct (link_vec l) as [dx dy] eqn:Ev. cbn [fst snd] in *.
+      rewrite E1. cbn [bind fst snd].
+      destruct (IH (walk_end p o1) Hz) as (o2 & E2 & W2 & D2 & L2). rewrite E2. cbn [bind].
+      exists (o1 ++ o2). repeat split.
+      * apply labelled_walk_app; assumption.
+      * rewrite walk_end_app, D2. cbn [sum_disp fst snd].
+        unfold wrap_opt2 in *. injection D1 as D1x D1y. unfold chip_add; cbn [fst snd].
+        rewrite Z2Nat.id in D1x, D1y by lia.
+        rewrite (wrap_opt_congr_add width _ _ (fst (sum_disp ds)) D1x).
+        rewrite (wrap_opt_congr_add height _ _ (snd (sum_disp ds)) D1y).
+        rewrite F1, F2. f_equal; f_equal; nia.
+      * rewrite app_length, Nat2Z.inj_add, L2, L1, Z2Nat.id by lia. reflexivity.
+Qed.
+
+Lemma ldf_walk :
+  forall k0 k1 k2 v start width height,
+    0 <= k0 < two53 -> 0 <= k1 < two53 -> 0 <= k2 < two53 -> size_ok width -> size_ok height ->
+    exists out, longest_dimension_first k0 k1 k2 v start width height = Ok out /\
+                ldf_spec v start width height out.
+Proof.
+  intros k0 k1 k2 [[x y] z] start width height H0 H1 H2 Hw Hh.
+  unfold longest_dimension_first.
+  destruct (ldf_order_cases k0 k1 k2 x y z H0 H1 H2) as [Hz Hc].
+  destruct (ldf_dims_ok width height Hw Hh _ start Hz) as (out & E & W & D & L).
+  exists out. split; [exact E|]. unfold ldf_spec. split; [exact W|].
+  assert (S : sum_disp (ldf_order k0 k1 k2 (x, y, z)) = to2d (x, y, z) /\
+              sum_abs (ldf_order k0 k1 k2 (x, y, z)) = hops (x, y, z)).
+  { destruct Hc as [-> | [-> | [-> | [-> | [-> | ->]]]]];
+      cbn [sum_disp sum_abs fst snd]; unfold ldf_delta, chip_add, to2d, hops; cbn [Z.eqb fst snd];
+        (split; [f_equal|]; lia). }
+  destruct S as [S1 S2]. rewrite S1 in D. rewrite S2 in L. split; [exact D | exact L].
 Qed.
